@@ -6,6 +6,7 @@ import os
 import subprocess
 import sys
 
+import c14_scale as sc
 import setup_impl as su
 import sim_impl as si
 
@@ -19,7 +20,13 @@ RULE = ("End-to-end runs through ladim.main.main on generated scenarios (depth-d
         "records are compared exactly with the executable Sim instance in Coq, and the oracle compares the "
         "trajectories of common rows between the paired runs bit for bit. Thorough: the base run repeated in fresh "
         "interpreters under different PYTHONHASHSEED, output files compared byte for byte. Non-trivial = scenario in "
-        "which a particle dies while a later-numbered particle of a different depth class survives.")
+        "which a particle dies while a later-numbered particle of a different depth class survives. "
+        "Scale (oracle only, always first): a fixed family of runs through ladim.main.main over a sloping bottom with "
+        "sheared time-varying currents and an island, 1000 .. 131073 release rows (EF/RK2/RK4, deaths at the open "
+        "boundary and by age) and an 1100-step run with 70000 pids released at 137 instants: the full table against a "
+        "sub-table (a random tenth, the tail, the rows around powers of two and multiples of 10000), a random "
+        "reordering of the rows of equal release time and a whole-step time shift; every stored instance of every "
+        "common row must be identical (pid, X, Y, Z, age, sampled scalar) up to renumbering.")
 TRUSTED = ["Coq 8.16.1 kernel + vm_compute", "system model coq/Model/Sim.v (abstract physics; cache by position) and its executable instance coq/Corr/SimInst.v tied by this correspondence",
            "run-to-run reproducibility of the interpreter is exercised, not proved (partial)"]
 ASSUMPTIONS = ["diffusion off", "component laws (forcing/release are functions of the step; tracker/IBM act per particle) are what C02/C03/C04/C09 establish"]
@@ -27,7 +34,8 @@ ASSUMPTIONS = ["diffusion off", "component laws (forcing/release are functions o
 
 def gen_cases(ctx):
     rng = ctx.rng
-    out = []
+    # deterministic cases of realistic size first (they do not draw from the generator)
+    out = sc.scale_cases()
     for _ in range(10 if ctx.quick else 90):
         env = si.make_env(rng)
         n = len(env["rows"])
@@ -81,6 +89,10 @@ def eval_case(desc, ctx):
     d = ctx.subdir("c14")
     for f in d.glob("*"):
         f.unlink()
+    if desc["k"] == "scale":
+        problems, obs = sc.eval_scale(desc, d)
+        return {"ints": None, "oracle": "; ".join(problems[:3]) or None, "nontrivial": ("scale", desc["n"], desc["adv"], desc["nsteps"]),
+                "kind": "scale-long" if desc["nsteps"] > 1000 else "scale", "observed": obs}
     if desc["k"] == "setup":
         cases, problems, nt = su.eval_setup(desc["setup"], d, [(2, desc["shift"])], indep=True)
         return {"ints": cases, "oracle": "; ".join(problems[:3]) or None, "nontrivial": (desc["seed"], "setup") if nt else None,
